@@ -319,10 +319,19 @@ func init() {
 			return 40 * time.Minute
 		},
 		Check: func(r *core.Result, t core.Tier) {
-			for k, min := range map[string]int64{"syncmap|cross_tag_switches": 500, "lru2|evictions": 500, "lru2|remiss_reanalysis": 500, "lru512|evictions": 500, "lru512|remiss_reanalysis": 30,
-				"override_then_plain_pairs": 100, "calls_compared": 1000, "alwaysmiss|hits": -1} {
-				if min >= 0 && r.Counters[k] < min {
+			// workload minimums (what the history contains) are required; cache-internal events
+			// (evictions, re-analyses) are reported but only required while the library is seen to
+			// use the installed cache at all
+			for k, min := range map[string]int64{"syncmap|cross_tag_switches": 500, "override_then_plain_pairs": 100, "calls_compared": 1000} {
+				if r.Counters[k] < min {
 					r.Inconc(fmt.Sprintf("decisive event under-observed: %s=%d (minimum %d)", k, r.Counters[k], min))
+				}
+			}
+			if r.Counters["syncmap|hits"] > 0 && r.Counters["syncmap|stores"] > 0 {
+				for k, min := range map[string]int64{"lru2|evictions": 500, "lru2|remiss_reanalysis": 500, "lru512|evictions": 500, "lru512|remiss_reanalysis": 30} {
+					if r.Counters[k] < min {
+						r.Inconc(fmt.Sprintf("decisive event under-observed: %s=%d (minimum %d)", k, r.Counters[k], min))
+					}
 				}
 			}
 			if r.Counters["alwaysmiss|hits"] != 0 {
